@@ -377,6 +377,8 @@ class annotate(object):
         func.__signature__ = sig
         for pok in reversed(poks):
             pok._prepare()
+            # bound copies were prepared from the previous signature
+            pok.insts.clear()
         return obj
 
     def __repr__(self):
